@@ -15,6 +15,7 @@ import (
 	"encoding/base64"
 	"encoding/hex"
 	"fmt"
+	"google.golang.org/protobuf/reflect/protopath"
 	"math"
 	"math/big"
 	"strings"
@@ -432,6 +433,65 @@ func main() {
 					r.Sample(map[string]any{"root": root.name, "path": p.text, "present": present, "value": short(want)})
 				}
 				return fmt.Sprint(present, verr)
+			})
+		})
+		// History: parse first, evaluate later. Blocks of 64 paths are parsed one after the other in
+		// one goroutine and kept; only then is each kept path evaluated. A parsed path must stay what
+		// it was when later parses run (no storage shared with the parser).
+		const block = 64
+		nblocks := (len(paths) + block - 1) / block
+		r.ParallelFor(nblocks, func(bi int) {
+			lo, hi := bi*block, (bi+1)*block
+			if hi > len(paths) {
+				hi = len(paths)
+			}
+			id := fmt.Sprintf("typed-held root=%s block=%d first=%s", root.name, bi, paths[lo].text)
+			r.Case(id, func() string {
+				kept := make([]protopath.Path, hi-lo)
+				ok := make([]bool, hi-lo)
+				bad := 0
+				pan, val := mc.Guard(func() {
+					for i := lo; i < hi; i++ {
+						if paths[i].expectParseError {
+							continue
+						}
+						if pp, e := parsepath.ParsePath(md, paths[i].text); e == nil {
+							kept[i-lo], ok[i-lo] = pp, true
+						}
+					}
+					for i := lo; i < hi; i++ {
+						if !ok[i-lo] {
+							continue
+						}
+						p := paths[i]
+						want := protoreflect.ValueOf(root.msg.ProtoReflect())
+						present := true
+						for _, st := range p.steps {
+							if want, present = st.apply(want); !present {
+								break
+							}
+						}
+						vs, e := parsepath.PathValues(kept[i-lo], root.msg)
+						r.Eval()
+						switch {
+						case !present && e == nil:
+							bad++
+							r.Violation("typed-held/absent-element-returned", id, fmt.Sprintf("path %q, parsed earlier and evaluated after %d later parses, returns a value for an absent element", p.text, hi-1-i), nil)
+						case present && e != nil:
+							bad++
+							r.Violation("typed-held/present-element-error", id, fmt.Sprintf("path %q, parsed earlier and evaluated after later parses, fails although the element exists: %v", p.text, e), nil)
+						case present && !valueEqual(vs.Index(-1).Value, want):
+							bad++
+							r.Violation("typed-held/wrong-value", id, fmt.Sprintf("path %q, parsed earlier and evaluated after later parses, returns %v; walking the message gives %v", p.text, short(vs.Index(-1).Value), short(want)), nil)
+						}
+					}
+				})
+				if pan {
+					r.Violation("typed-held/panic", id, fmt.Sprintf("panicked: %v", val), nil)
+				}
+				r.Validated()
+				r.Outcome("held-block")
+				return fmt.Sprint(bad)
 			})
 		})
 	}
